@@ -384,7 +384,7 @@ impl Serializer for RecSer {
 }
 
 fn model_events(tee: &Tee, root: Id) -> Vec<Ev> {
-    // DFS over children (template contents are not part of the children tree)
+    // DFS over children; a template element's contents come before its own children
     enum W {
         Open(Id),
         Close(String),
@@ -405,6 +405,13 @@ fn model_events(tee: &Tee, root: Id) -> Vec<Ev> {
                     stack.push(W::Close(n));
                     for c in nodes[id].children.iter().rev() {
                         stack.push(W::Open(*c));
+                    }
+                    // between the tags of a template element: the children of its template
+                    // contents (HTML fragment serialization algorithm), then its own children
+                    if let Some(tc) = nodes[id].tmpl {
+                        for c in nodes[tc].children.iter().rev() {
+                            stack.push(W::Open(*c));
+                        }
                     }
                 },
                 MKind::Text(t) => out.push(Ev::Text(t.clone())),
